@@ -22,6 +22,15 @@ def main() -> None:
     except Exception as e:  # an exception escaping the harness body is a failure of `post`
         out["kernel"] = "reproduced"
         out["kernel_value"] = "raised {}: {}".format(type(e).__name__, e)
+    why = getattr(mod, "why_" + req["func"][3:], None)
+    if why is not None:
+        try:
+            out["why"] = why(*args, **kwargs)
+        except Exception as e:
+            out["why"] = "why-function raised %r" % (e,)
+    if out.get("why", "").startswith("closure:"):
+        print(json.dumps(out, default=str))
+        return
     if req.get("lift") and out["kernel"] == "reproduced":
         try:
             lift = getattr(mod, req["lift"])
